@@ -48,7 +48,19 @@ Boundary == <<
   << L("A", "[3]int8"), L("B", "any"), L("C", "bool"), L("D", "[]byte"), L("E", "[0]int64"), L("F", "*int"), L("G", "uint16"), L("H", "float64") >>,
   \* 19 a pointer-hidden first match whose as-coded offset coincides with a by-value field of the same name and type
   \*    (found by TLC on the repaired derivation: accepting it is sound - the optic is on the outer f2)
-  << EP("E1", << L("F1", "int8"), L("f2", "int64") >>), L("f2", "int64") >>
+  << EP("E1", << L("F1", "int8"), L("f2", "int64") >>), L("f2", "int64") >>,
+  \* 20 floating point and complex leaves (values +0, -0, NaN: equal is not identical), an interface holding them
+  << L("A", "float64"), L("B", "float32"), L("C", "complex128"), L("D", "any"), L("E", "float64"), L("F", "int8") >>,
+  \* 21-23 containers larger than 64 KiB: the big array first, in the middle, inside a value-embedded struct (once the
+  \*       field offset, once the root offset carries the large part)
+  << L("Big", "[65536]byte"), L("A", "int8"), L("B", "int64"), L("C", "int16") >>,
+  << L("A", "int16"), L("Big", "[65536]byte"), L("B", "int32"), L("C", "string") >>,
+  << L("A", "int8"), EV("E1", << L("Pad", "[65536]byte"), L("B", "int64") >>), EV("E2", << L("C", "int16"), L("D", "int64") >>), L("E", "int8") >>,
+  \* 24-26 one struct type used twice: value-embedded in two different embedded structs; embedded at two depths;
+  \*       embedded, as a plain named field and behind an embedded pointer
+  << EV("A", << EV("E", << L("x", "int8"), L("y", "int64") >>), L("p", "int16") >>), EV("B", << L("q", "int8"), EV("E", << L("x", "int8"), L("y", "int64") >>) >>), L("z", "int8") >>,
+  << EV("E", << L("x", "int16"), L("y", "int8") >>), EV("A", << L("p", "int64"), EV("E", << L("x", "int16"), L("y", "int8") >>) >>), L("z", "int32") >>,
+  << EV("E", << L("x", "int16"), L("y", "int8") >>), NS("X", "E", << L("x", "int16"), L("y", "int8") >>), EP("P", << L("q", "int8"), EV("E", << L("x", "int16"), L("y", "int8") >>) >>), L("z", "int8") >>
 >>
 BoundarySet == {Boundary[i] : i \in 1..Len(Boundary)}
 ====
